@@ -78,6 +78,13 @@ class C07(Prop):
                                     bit = (x >> (len_ - 1 - j)) & 1
                                     bg[g // 8] = (bg[g // 8] & ~(0x80 >> (g % 8))) | ((0x80 >> (g % 8)) if bit else 0)
                                 yield (f"PARSE {kind} {w} {off} {len_} {hx(bg)}", f"parse-all-{kind}{w}", nontrivial)
+                    # the cursor reached by skipping bits (Parser::consume_bits) instead of directly: every skip
+                    # 1..17 from every alignment, then a read
+                    if len_ in (1, 3, 8, w) or len_ == w // 2:
+                        for off0 in range(8):
+                            for skip in list(range(1, 18)) + [r.randrange(18, 200)]:
+                                nbytes = (off0 + skip + len_ + 7) // 8 + r.choice([0, 1])
+                                yield (f"SKIPPARSE {kind} {w} {off0} {skip} {len_} {hx(rand_bytes(r, nbytes))}", "parse-after-skip", True)
                     # cursor already beyond the end of the buffer
                     if len_ in (1, 8, w):
                         for nb in (0, 1, 3):
